@@ -24,6 +24,9 @@ KINDS = {
     10: 'model and code disagree on the recent signers a rejected raw call left in the uncommitted store',
     11: 'client state fields / foreign store keys changed',
     12: 'oracle table incomplete',
+    13: 'model and code disagree on the bytes hashed for the block hash (rlp of ToBscHeader)',
+    14: 'model and code disagree on the bytes the sealer signs (encodeSigHeader)',
+    15: 'the real block hash / seal hash / recovered sealer is not keccak256 / secp256k1 recovery of the recorded pre-image',
     21: 'accepted header is not the direct child of the head (number + 1, parent hash) or the head did not become it',
     22: 'accepted header is structurally invalid (extra data, gas bounds, mix digest, uncle hash, difficulty 0)',
     23: 'accepted header not sealed by its coinbase or sealer not in the validator set',
@@ -123,6 +126,11 @@ def case_defs(it, idx, r):
     for j, o in enumerate(r['oracle']):
         orc.append('(%s, (%s, %s))' % (hn[j], coq_option(it.b(o['hash']) if o['hash_ok'] else None),
                                        coq_option(it.b(o['sealer']) if o['sealer_ok'] else None)))
+    pre = []
+    for o in r['oracle']:
+        pre.append('(%s, %s, %s)' % (coq_option(it.b(o['block_pre']) if o['block_pre_ok'] else None),
+                                     coq_option(it.b(o['seal_pre']) if o['seal_pre_ok'] else None),
+                                     coq_bool(o['hash_is_keccak'] and o['seal_is_keccak'])))
     steps = []
     for j, (st, o) in enumerate(zip(sp['steps'] or [], r['obs'])):
         dirty = coq_option(kv_list(it, o['dirty']) if o['has_dirty'] else None)
@@ -132,9 +140,9 @@ def case_defs(it, idx, r):
         steps.append(n)
     name = 'c%d' % idx
     out.append(('Definition %s : ocase := {| k_keeper := %s; k_cs := %s; k_cons0 := %s; k_create_class := %d; k_create_kind := %s; '
-                'k_create_state := %s; k_oracle := %s; k_steps := %s |}.') % (
+                'k_create_state := %s; k_oracle := %s; k_pre := %s; k_steps := %s |}.') % (
         name, coq_bool(sp['mode'] == 'keeper'), cs, cons0, r['create']['class'], N(r['create']['kind']),
-        state_term(it, r['create']['state']), coq_list(orc), coq_list(steps)))
+        state_term(it, r['create']['state']), coq_list(orc), coq_list(pre), coq_list(steps)))
     return out, name
 
 
@@ -220,8 +228,14 @@ def coverage(run, results, mm, ff, tags):
     steps = 0
     sizes = Counter()
     epochs = Counter()
+    alltags = Counter()
+    pre_cmp = Counter()
     for r in results:
         sp = r['spec']
+        for o in r['oracle']:
+            pre_cmp['block_preimages_compared'] += 1 if o['block_pre_ok'] else 0
+            pre_cmp['seal_preimages_compared'] += 1 if o['seal_pre_ok'] else 0
+            pre_cmp['block_preimage_empty_number>=2^63'] += 1 if (o['block_pre_ok'] and o['block_pre'] == '') else 0
         dist['create_class_%d' % r['create']['class']] += 1
         dist['mode_' + sp['mode']] += 1
         sizes[len(sp['vals'] or [])] += 1
@@ -246,19 +260,24 @@ def coverage(run, results, mm, ff, tags):
                     dist['accepted_in_turn'] += 1
                 else:
                     dist['accepted_out_of_turn'] += 1
+            alltags[st['tag']] += 1
             nontrivial.add((o['class'], o['kind'], st['tag'].split('+')[0], len(o['state']['vals']), sp['epoch'],
                             len(o['state']['recents'])))
     run.coverage.update(dict(
         evaluations=steps, chains=len(results), distinct_nontrivial=len(nontrivial),
         rule='every submission of a header to the real client is one evaluation (model step + monitor); distinct = distinct '
              '(result class, error code, generator scenario, validator-set size, epoch length, number of stored recent signers)',
-        distribution=dict(dist), scenario_tags=tags, validator_set_sizes=dict(sizes), epoch_lengths=dict(epochs),
+        distribution=dict(dist), scenario_tags=dict(alltags), preimages=dict(pre_cmp),
+        validator_set_sizes=dict(sizes), epoch_lengths=dict(epochs),
         model_mismatches=len(mm), monitor_failures=len(ff),
         samples=[dict(results[0]['spec'], steps=(results[0]['spec']['steps'] or [])[:2])] if results else []))
     run.coverage['trusted_base'] += [
-        'hand-written model Model/Bsc.v tied to x/xibc/clients/light-clients/bsc by this differential run (the generator bounds '
-        'what it sees); oracles: Header.Hash() and ecrecover are recorded from the real code per header',
-        'go-ethereum crypto (secp256k1 recovery, keccak), rlp; protobuf codec of the stored values (harness decodes them)']
+        'hand-written model Model/Bsc.v + Model/BscRlp.v tied to x/xibc/clients/light-clients/bsc by this differential run (the '
+        'generator bounds what it sees); oracles: keccak256 and secp256k1 recovery (Header.Hash() / sealHash are modelled down '
+        'to their RLP pre-images, compared byte for byte with the bytes the real code hashes)',
+        'translator tools/gotocoq/bscconsts (constants, error codes, the two hashed field lists regenerated from the Go source; '
+        'Props/C09.v C09_source_tie compares them with the model)',
+        'go-ethereum crypto (secp256k1 recovery, keccak), rlp encoder; protobuf codec of the stored values (harness decodes them)']
     run.assumptions += [
         'a rejected UpdateClient message leaves no writes (BaseApp discards the cache of a failed transaction); the harness '
         'executes every submission in a cache context written only on success and compares the uncommitted store separately',
@@ -292,6 +311,9 @@ def report(run, results, mm, ff):
 
 def check(run):
     run.proof_stage()
+    if not run.quick():
+        # independent re-check of the .vo closure of Props/C09 and Refuted/C09_* by coqchk -o (axioms must be <none>)
+        run.coqchk_stage()
     ok, out = vlib.build_harness(['c09'])
     if not ok:
         run.violation(dict(kind='harness-build-failed', log=out[-3000:],
@@ -315,6 +337,14 @@ def check(run):
             run.violation(dict(kind='harness-crashed', log=o[-3000:]), no_input=True)
             return run.finish()
         results += vlib.read_jsonl(fx)
+        # set-size sweep: every pair of validator-set sizes from {1,2,3,4,5,7,9} across two epoch boundaries, the sealers
+        # of the last blocks probed at every block around both switches
+        sw = os.path.join(run.work, 'sweep.jsonl')
+        rc, o = vlib.run_harness('c09', ['-sweep', '-out', sw])
+        if rc != 0:
+            run.violation(dict(kind='harness-crashed', log=o[-3000:]), no_input=True)
+            return run.finish()
+        results += vlib.read_jsonl(sw)
     mm, ff = evaluate(run.work, results)
     if mm is None:
         run.violation(dict(kind='coq-evaluation-failed', log=ff), no_input=True)
@@ -337,13 +367,6 @@ def check(run):
     report(run, results, mm, ff)
     if not run.violations and not run.proof_ok():
         run.proof_violation()
-    if not run.quick() and not run.violations:
-        # independent re-check of the compiled proofs by coqchk
-        rc, o = vlib.sh('coqchk -silent -Q theories Teleport Teleport.Props.C09 Teleport.Refuted.C09_refuted', cwd=vlib.COQ,
-                        timeout=1500)
-        run.coverage['coqchk'] = 'ok' if rc == 0 else 'FAILED: ' + o[-500:]
-        if rc != 0:
-            run.violation(dict(kind='coqchk-failed', log=o[-2000:]), no_input=True)
     return run.finish()
 
 
